@@ -312,6 +312,9 @@ class Oracle:
                     if o['status'] != 'ok':
                         self.fail('raises', '%s(%r) raised %s on a %s layer' % (op[0], op[1], o['status'], where))
                         return
+                    if float(op[1]) == clock:
+                        self.cnt('evolve_until(t) with t = the current time%s' % (
+                            ' right after a parameter change' if not moved_since_set else ' right after reset' if not seq else ''))
                     clock = float(op[1])
                     seq.append(clock)
                     moved_since_set = True
@@ -1044,6 +1047,87 @@ def gen_layer_case(rng, kind, big):
     return decorate(rng, case)
 
 
+SAME_TIME_MOTIFS = ('twice', 'reset-zero', 'setter-same', 'setter-reset-zero', 'sett-same', 'back-and-same', 'none-zero')
+
+
+def gen_sametime_case(rng, kind, big):
+    """repeated / equal target times on a single layer: evolve_until(t) (or `t = t`) with t EXACTLY the layer's current time — twice in
+    a row, 0 right after reset() / evolve_until(None), after a parameter (Cn^2, outer scale, velocity) was changed on the running
+    layer, after a backwards step of the finite layer — with a read after each; a call that is skipped or half-done because "the layer
+    is already there" shows as a wrong clock, a stale screen or a screen that is not the one of a fresh layer."""
+    nx, ny, dx, dy = gen_geometry(rng, big)
+    vel = gen_wind(rng, dx, dy)
+    ext = max(nx * dx, ny * dy)
+    case = {'kind': kind, 'nx': nx, 'ny': ny, 'dx': dx, 'dy': dy, 'vel': vel,
+            'seed': int(rng.integers(0, 2 ** 31)), 'cn2': float(rng.integers(1, 64)) * 2.0 ** -44,
+            'L0': float(rng.choice([4.0, 10.0, 25.0])) * ext / 4.0,
+            'k': float(rng.choice([0, 0, 2.0, 3.0])), 'interp': bool(rng.random() < 0.5), 'family': 'same-time', 'motifs': []}
+    frac = rng.random() < 0.4
+    ops = []
+    t = 0.0
+    live = False
+
+    def read():
+        ops.append(['read', float(rng.choice([1.0, 1.0, 0.5, 2.0]))])
+
+    def setter():
+        kind_ = str(rng.choice(['setcn2', 'setcn2', 'setl0', 'setvel'] if kind == 'finite' else ['setcn2', 'setl0']))
+        if kind_ == 'setcn2':
+            ops.append(['setcn2', float(rng.integers(1, 64)) * 2.0 ** -44 * float(rng.choice([1.0, 4.0, 0.25]))])
+        elif kind_ == 'setl0':
+            ops.append(['setl0', float(rng.choice([3.0, 6.0, 12.0, 20.0])) * ext / 4.0, str(rng.choice(['L0', 'outer_scale']))])
+        else:
+            ops.append(['setvel', gen_wind(rng, dx, dy)])
+    for _ in range(int(rng.integers(2, 6))):
+        m = str(rng.choice(SAME_TIME_MOTIFS))
+        if m == 'back-and-same' and kind != 'finite':
+            m = 'twice'
+        if m == 'none-zero' and kind != 'infinite':
+            m = 'reset-zero'
+        case['motifs'].append(m)
+        if m in ('twice', 'setter-same', 'sett-same', 'back-and-same') and (t == 0.0 or rng.random() < 0.5):
+            t = t + float(rng.choice([1, 1, 2, 3])) + (float(rng.integers(0, 4)) / 4.0 if frac else 0.0)
+            ops.append(['evolve', t])
+            if rng.random() < 0.7:
+                read()
+        if m == 'twice':
+            ops.append(['evolve', t]); read()
+            if rng.random() < 0.3:
+                ops.append(['sett', t]); read()
+        elif m == 'sett-same':
+            ops.append(['sett', t]); read()
+        elif m == 'reset-zero':
+            ops.append(['reset', False]); t = 0.0
+            if rng.random() < 0.4:
+                read()
+            ops.append([str(rng.choice(['evolve', 'sett'])), 0.0]); read()
+        elif m == 'none-zero':
+            ops.append(['reset', False, 'none']); t = 0.0
+            ops.append(['evolve', 0.0]); read()
+        elif m == 'setter-same':
+            setter(); live = True
+            if rng.random() < 0.4:
+                read()
+            ops.append(['evolve', t]); read()
+            if rng.random() < 0.3:
+                ops.append(['evolve', t]); read()
+        elif m == 'setter-reset-zero':
+            setter()
+            ops.append(['reset', False]); t = 0.0
+            ops.append(['evolve', 0.0]); read()
+        elif m == 'back-and-same':
+            t = float(rng.integers(0, int(t) + 1))
+            ops.append(['evolve', t]); read()
+            ops.append(['evolve', t]); read()
+    case['ops'] = ops
+    decorate(rng, case, live=False)
+    if live:
+        if kind == 'finite':
+            case['heap'] = True          # parameter changes on the running finite layer: the heap model (lazy noise, cached screen)
+        case['live'] = True
+    return case
+
+
 def gen_late_case(rng, kind, style, big):
     """time scales: a long run (large t0, large accumulated displacement) followed by many small steps.
     'huge' (finite layer): 16..64 px per unit time for 512..2048 units, then steps of one pixel or a quarter pixel.
@@ -1284,6 +1368,8 @@ def handle(ctx, case, batch):
             ctx.count('%s:%s' % (case['kind'], case['style']))
             ctx.count('%s:late small steps' % case['kind'], sum(1 for op in case['ops'] if op[0] == 'evolve') - 1)
         ctx.count('%s:model %s' % (case['kind'], 'heap (hfin/hinf)' if case.get('heap') else 'value (fin/inf)'))
+        for m in case.get('motifs', []):
+            ctx.count('%s:same-time motif %s' % (case['kind'], m))
         if case.get('seedobj'):
             ctx.count('%s:seed is a %s object' % (case['kind'], 'BitGenerator' if case['seedobj'] == 'bitgen' else 'Generator'))
             ctx.count('%s:caller draws' % case['kind'], sum(1 for op in case['ops'] if op[0] == 'cdraw'))
@@ -1381,6 +1467,8 @@ def run(ctx):
         cases.append(c15_atmos.gen_atmos_case(ctx.rng, big and i % 3 == 0))
     for i in range(ctx.scale(24, 300)):
         cases.append(c15_atmos.gen_stale_case(ctx.rng, big and i % 3 == 0))
+    for i in range(ctx.scale(20, 240)):
+        cases.append(gen_sametime_case(ctx.rng, 'finite' if i % 2 == 0 else 'infinite', big and i % 3 == 0))
     batch = []
     for case in cases:
         handle(ctx, case, batch)
